@@ -107,7 +107,7 @@ pub struct RCase {
 fn trap_sql(t: &Trap) -> (String, &'static str) {
     match t {
         Trap::DivZero(k) => (["SELECT a / 0 FROM t", "SELECT a % 0 FROM t", "SELECT a FROM t WHERE b / (a - a) > 1", "UPDATE t SET b = b / 0", "SELECT d / 0 FROM t", "SELECT 1 / 0", "SELECT a / 0.0 FROM t", "DELETE FROM t WHERE a % (b - b) = 0"][*k as usize % 8].to_string(), "trap.div_zero"),
-        Trap::Overflow(k) => (["SELECT a + 2147483647 FROM t", "SELECT b * 9223372036854775807 FROM t", "SELECT a * a * a * a * a * a * a * a * a * a * 1000000 FROM t", "UPDATE t SET a = a + 2147483647", "SELECT - b - 9223372036854775807 FROM t", "INSERT INTO t VALUES (2147483648, 1, 'o', 1.0, TRUE)", "SELECT 2147483647 + 1", "SELECT SUM(b) * 9223372036854775807 FROM t"][*k as usize % 8].to_string(), "trap.overflow"),
+        Trap::Overflow(k) => (["SELECT a + 2147483647 FROM t", "SELECT b * 9223372036854775807 FROM t", "SELECT a * a * a * a * a * a * a * a * a * a * 1000000 FROM t", "UPDATE t SET a = a + 2147483647", "SELECT - b - 9223372036854775807 FROM t", "INSERT INTO t VALUES (2147483648, 1, 'o', 1.0, TRUE)", "SELECT 2147483647 + 1", "SELECT SUM(b) * 9223372036854775807 FROM t", "SELECT a FROM t WHERE a = - - 2147483648", "SELECT - (- 2147483647 - 1) FROM t", "SELECT - (- 9223372036854775807 - 1) FROM t", "UPDATE t SET a = - (a - 2147483647 - 2) WHERE a = 1"][*k as usize % 12].to_string(), "trap.overflow"),
         Trap::WrongTypes(k) => (["SELECT a + c FROM t", "SELECT c * 2 FROM t", "SELECT a FROM t WHERE c > 5", "SELECT a FROM t WHERE a LIKE 'x'", "SELECT - c FROM t", "SELECT a || b FROM t", "SELECT a FROM t WHERE e + 1 = 2", "UPDATE t SET a = 'text'", "SELECT a FROM t WHERE NOT c", "SELECT a FROM t WHERE a AND b", "SELECT SUM(c) FROM t", "SELECT AVG(e) FROM t"][*k as usize % 12].to_string(), "trap.wrong_types"),
         Trap::UnknownName(k) => (["SELECT nosuch FROM t", "SELECT a FROM nosuch", "SELECT t.nosuch FROM t", "SELECT x.a FROM t", "INSERT INTO nosuch VALUES (1)", "UPDATE t SET nosuch = 1", "DELETE FROM nosuch", "DROP TABLE nosuch", "SELECT a FROM t ORDER BY nosuch", "SELECT a FROM t GROUP BY nosuch", "SELECT NOSUCHFN(a) FROM t", "CREATE UNIQUE INDEX ni ON nosuch (a)", "CREATE UNIQUE INDEX ni ON t (nosuch)"][*k as usize % 13].to_string(), "trap.unknown_name"),
         Trap::Ambiguous => ("SELECT a FROM t JOIN t ON a = a".to_string(), "trap.ambiguous"),
@@ -298,6 +298,9 @@ pub fn run_case(c: &RCase) -> CaseOut {
     // a successful statement may have changed u's shape (DDL): the write probe below only runs while none did
     let mut schema_touched = false;
     let mut insert_selects = 0;
+    let mut update_execs: std::collections::HashMap<String, (u32, u64)> = Default::default();
+    let mut heavy_updates: std::collections::BTreeSet<String> = Default::default();
+    let mut multi_row_versions = 0u64;
     // a statement failed inside a session while the open finding about such statements is excluded: what the session
     // leaves behind (e.g. a committed row that is in no index) is that finding's business, the write probe stays off
     let mut polluted = false;
@@ -358,9 +361,28 @@ pub fn run_case(c: &RCase) -> CaseOut {
             out.excluded.push(tag.to_string());
             continue;
         }
-        if tag == "trap.big_text" && sql.len() > 400 && c.excluded.iter().any(|x| x == "payload.overflow_cell") {
-            out.excluded.push("payload.overflow_cell".into());
-            continue;
+        // Rows of several hundred bytes and more belong to the open B+tree finding about big cells
+        // (F-C10-empty-leaf-after-split, tag payload.overflow_cell). While it is excluded, C16 keeps rows small:
+        // no long INSERT / UPDATE texts (a long text can only carry long values), and a bound on how far UPDATEs
+        // may grow the version chains of several rows at once (one or two rows may take hundreds of versions: they
+        // still share a leaf with the small ones).
+        if c.excluded.iter().any(|x| x == "payload.overflow_cell") {
+            let u = sql.to_uppercase();
+            if sql.len() > 400 && (tag == "trap.big_text" || u.contains("INSERT") || u.contains("UPDATE")) {
+                out.excluded.push("payload.overflow_cell".into());
+                continue;
+            }
+            if u.contains("UPDATE") {
+                let (execs, last_affected) = update_execs.get(&sql).copied().unwrap_or((0u32, 0u64));
+                let heavy_full = execs >= 12 && !heavy_updates.contains(&sql) && heavy_updates.len() >= 2;
+                if (last_affected > 1 && multi_row_versions >= 24) || heavy_full {
+                    out.excluded.push("payload.overflow_cell".into());
+                    continue;
+                }
+                if execs >= 12 {
+                    heavy_updates.insert(sql.clone());
+                }
+            }
         }
         // INSERT ... SELECT from the table itself doubles it: a handful per case keeps "bounded time" meaningful
         {
@@ -399,6 +421,15 @@ pub fn run_case(c: &RCase) -> CaseOut {
             Ok(ref o) => {
                 if had_failure {
                     failed_then_ok = true;
+                }
+                if upper.contains("UPDATE") {
+                    let n = if let Out::Affected(n) = o { *n } else { 0 };
+                    let e = update_execs.entry(sql.clone()).or_insert((0, 0));
+                    e.0 += 1;
+                    e.1 = n;
+                    if n > 1 {
+                        multi_row_versions += n;
+                    }
                 }
                 if sess && (matches!(o, Out::Ddl(_)) || upper.contains("CREATE") || upper.contains("DROP") || upper.contains("ALTER")) {
                     sess_ddl = true;
